@@ -386,6 +386,18 @@ def check_live_ins(idx: Index, rep: Report) -> None:
             l_out = [x for x in walk_local(w) if isinstance(x, ast.For) and unparse(x.target) == m_.group(1) and any(y is c for y in ast.walk(x))]
             if l_out and unparse(l_out[-1].iter) == f"{opv}.regions":
                 nested_ok = True
+        elif l_in:
+            # one loop over a flattened iterable: (b for r in <op>.regions for b in r.blocks)
+            try:
+                ge = ast.parse(resolved_text(cfg, l_in[-1].iter, cfg.node_of(l_in[-1])), mode="eval").body
+            except SyntaxError:
+                ge = None
+            if isinstance(ge, (ast.GeneratorExp, ast.ListComp)) and len(ge.generators) == 2 and not ge.generators[0].ifs and not ge.generators[1].ifs:
+                g0, g1 = ge.generators
+                if unparse(g0.iter) == f"{opv}.regions" and unparse(g1.iter) == f"{unparse(g0.target)}.blocks" and unparse(ge.elt) == unparse(g1.target):
+                    nested_ok = True
+    if not nested_ok and nested:
+        raise AnalysisError(f"{f.fq}: the iteration that feeds the nested `{f.name}` call was not understood")
     if not nested_ok:
         problems.append("nested-blocks-ignored")
     if f"{res}.difference_update({blk}.args)" not in t:
